@@ -1269,7 +1269,11 @@ fn value_text(v: &Val) -> Option<String> {
         Val::Null => Some(String::new()),
         Val::Bool(b) => Some(format!(" {}", b)),
         Val::Int(i) => Some(format!(" {}", i)),
-        Val::Float(f) if f.is_finite() => Some(format!(" {:?}", f)),
+        Val::Float(f) if f.is_finite() => {
+            // plain decimal notation with a decimal point (STAMQL has no exponent syntax)
+            let t = format!("{}", f);
+            Some(if t.contains('.') { format!(" {}", t) } else { format!(" {}.0", t) })
+        }
         Val::Str(s) if q_str_ok(s) => Some(format!(" \"{}\"", s)),
         _ => None,
     }
